@@ -76,19 +76,25 @@ func (h *StreamHandler) Browse(req *BrowseRequest) *BrowseResponse {
 
 // requirePath validates that the request has a non-empty path within allowed paths,
 // and returns the cleaned path. If validation fails, it returns an error response.
-func (h *StreamHandler) requirePath(path string) (string, *BrowseResponse) {
+//
+// followFinal tells whether the operation follows a symbolic link in the final path
+// component (list, chmod) or acts on the directory entry itself (stat, delete); in
+// both cases symbolic links in parent directories are resolved and the real
+// location must be within the allowed paths as well.
+func (h *StreamHandler) requirePath(path string, followFinal bool) (string, *BrowseResponse) {
 	if path == "" {
 		return "", &BrowseResponse{Error: "path is required"}
 	}
-	if err := h.validatePath(path); err != nil {
+	cleanPath, err := h.validateAccessPath(path, followFinal)
+	if err != nil {
 		return "", &BrowseResponse{Error: err.Error()}
 	}
-	return filepath.Clean(path), nil
+	return cleanPath, nil
 }
 
 // browseList lists directory contents with pagination.
 func (h *StreamHandler) browseList(req *BrowseRequest) *BrowseResponse {
-	cleanPath, errResp := h.requirePath(req.Path)
+	cleanPath, errResp := h.requirePath(req.Path, true)
 	if errResp != nil {
 		return errResp
 	}
@@ -159,7 +165,7 @@ func (h *StreamHandler) browseList(req *BrowseRequest) *BrowseResponse {
 
 // browseStat returns info about a single path.
 func (h *StreamHandler) browseStat(req *BrowseRequest) *BrowseResponse {
-	cleanPath, errResp := h.requirePath(req.Path)
+	cleanPath, errResp := h.requirePath(req.Path, false)
 	if errResp != nil {
 		return errResp
 	}
@@ -177,7 +183,7 @@ func (h *StreamHandler) browseStat(req *BrowseRequest) *BrowseResponse {
 
 // browseChmod changes file permissions.
 func (h *StreamHandler) browseChmod(req *BrowseRequest) *BrowseResponse {
-	cleanPath, errResp := h.requirePath(req.Path)
+	cleanPath, errResp := h.requirePath(req.Path, true)
 	if errResp != nil {
 		return errResp
 	}
@@ -204,7 +210,7 @@ func (h *StreamHandler) browseChmod(req *BrowseRequest) *BrowseResponse {
 
 // browseDelete deletes a file or directory.
 func (h *StreamHandler) browseDelete(req *BrowseRequest) *BrowseResponse {
-	cleanPath, errResp := h.requirePath(req.Path)
+	cleanPath, errResp := h.requirePath(req.Path, false)
 	if errResp != nil {
 		return errResp
 	}
